@@ -4,3 +4,4 @@ import LemoGen.Store
 import LemoGen.Gas
 import LemoGen.Net
 import LemoGen.NetCache
+import LemoGen.RlpBounds
